@@ -368,7 +368,11 @@ def run(ctx):
     for b in bases:
         for t in ([2] if ctx.quick else [2, 5, 6]):
             for mi, mov in ((0, "mh"), (1, "mH"), (2, "mA"), (3, "mHp"), (10, "mhSM")):
-                ts = [x for x in lat if not (mov == "mh" and x > TH_BASE[b][1]) and not (mov == "mH" and x < TH_BASE[b][0])]
+                # the coincidence targets themselves are seeds of the line: a guard window around a target is an
+                # island between two lattice points with equal signatures, which bisection alone never enters
+                tgl = targets([TH_BASE[b][0], TH_BASE[b][1], TH_BASE[b][2], TH_BASE[b][3]] + th_sm_masses, TH_MASS, mov, True)
+                ts = sorted(set(lat) | {v for v in tgl.values() if 10.0 <= v <= 1e4})
+                ts = [x for x in ts if not (mov == "mh" and x > TH_BASE[b][1]) and not (mov == "mH" and x < TH_BASE[b][0])]
                 lines.append(("LT", "L%s%d%s" % (b, t, mov), mi, TH_BASE[b] + [t, 125.09, 1], ts, ("THDM", b, t, mov)))
     for b in mbases:
         for mov in (["mu", "M2", "mL2", "mE2"] if ctx.quick else ["mu", "M1", "M2", "MA", "mL2", "mE2", "mQ3", "mU3", "Q"]):
@@ -382,6 +386,7 @@ def run(ctx):
         txt = "%s %s %d %d %s %d %s\n" % (cmd, lid, W, idx, " ".join(hexf(float(x)) for x in p), len(ts), " ".join(hexf(x) for x in ts))
         return L, _run(exe, txt)
     nbd = 0
+    windows = []      # (base, type, moving, index, params, target label, m0, window edge): narrow windows around a coincidence
     with ThreadPoolExecutor(16) as ex:
         for L, out in ex.map(linejob, lines):
             cmd, lid, idx, p, ts, (model, b, t, mov) = L
@@ -437,6 +442,11 @@ def run(ctx):
                 if va is None or vb is None:
                     continue
                 where = location(a) or "at~%.5g" % a
+                if model == "THDM" and location(a):
+                    m0w = tg[location(a)]
+                    edge = a if abs(a - m0w) >= abs(bb - m0w) else bb
+                    if 0 < abs(edge - m0w) <= 1e-5 * m0w:
+                        windows.append((b, t, mov, idx, list(p), location(a), m0w, edge))
                 jumped = set()
                 order = [n for n in names if n not in DERIVED[model]] + [n for n in names if n in DERIVED[model]]
                 for cn in order:
@@ -449,6 +459,47 @@ def run(ctx):
                         ctx.fail("%s.%s:%s=%s:jump:%s%s" % (model, cn, mov, where, _bucket(abs(ya - yb) / max(abs(ya), abs(yb))).replace("dev", "step"), ":massless-sfermion" if (a in massless or bb in massless) else ""),
                                  "%s %s jumps from %.6e to %.6e between the adjacent doubles %s = %r | %r (base %s, type %s)" % (model, cn, ya, yb, mov, a, bb, b, t),
                                  {"model": model, "base": b, "ytype": t, "moving": mov, "a": hexf(a), "b": hexf(bb)}, max_per_key=1)
+    # ------------------------------------------------------------------ interior of narrow windows
+    # A guard of the kind "if m is within 1e-8 of m0, shift it" creates a window that the offsets d = 1e-k only
+    # touch at a few points.  Inside every located window whose edge is within 1e-5 of a coincidence target the
+    # value must be finite and (the window being that narrow) equal within 1 % to the value just outside, at
+    # geometrically spaced interior points - a shift that lands ON the pole it is meant to avoid sits at such a point.
+    FR = (0.125, 0.25, 0.5, 0.75, 0.9, 0.99)
+    wcases, wmeta = [], {}
+    for wi, (b, t, mov, idx, pp, lab, m0w, edge) in enumerate(windows):
+        for f in FR + (2.0, 4.0):
+            q = list(pp); q[idx] = m0w + f * (edge - m0w)
+            cid = "w%d_%g" % (wi, f)
+            wcases.append((cid, "T", q)); wmeta[cid] = (wi, f)
+    if wcases:
+        wres = evaluate(exe, wcases)
+        ncases += len(wcases)
+        for wi, (b, t, mov, idx, pp, lab, m0w, edge) in enumerate(windows):
+            out2 = wres["w%d_%g" % (wi, 2.0)][0]
+            out4 = wres["w%d_%g" % (wi, 4.0)][0]
+            if out2 is None or out4 is None:
+                continue
+            side = "+" if edge > m0w else "-"
+            for f in FR:
+                vals = wres["w%d_%g" % (wi, f)][0]
+                if vals is None:
+                    continue
+                bad = set()
+                for cn in [n for n in TH_NAMES if n not in DERIVED["THDM"]] + [n for n in TH_NAMES if n in DERIVED["THDM"]]:
+                    ci = TH_NAMES.index(cn)
+                    y, r2, r4 = vals[ci], out2[ci], out4[ci]
+                    if not (math.isfinite(r2) and math.isfinite(r4)) or abs(r2 - r4) > 0.002 * max(abs(r2), abs(r4)):
+                        continue        # the outside reference itself is not settled (reported by the chord / jump clauses)
+                    dev = abs(y - r2) / max(abs(r2), 1e-300) if math.isfinite(y) else float("inf")
+                    if dev > 0.01:
+                        bad.add(cn)
+                        if any(pn in bad for pn in DERIVED["THDM"].get(cn, [])):
+                            continue
+                        ctx.fail("THDM.%s:%s=%s:window-interior:%s" % (cn, mov, lab, "nonfinite" if not math.isfinite(y) else _bucket(dev)),
+                                 "THDM %s = %r at %s = m0 (1 %s %.3g x window) inside the window of relative half-width %.3g around %s = %s = %r, but %r just outside (base %s, type %s)"
+                                 % (cn, y, mov, side, f, abs(edge - m0w) / m0w, mov, lab, m0w, r2, b, t),
+                                 {"model": "THDM", "base": b, "ytype": t, "moving": mov, "target": lab, "fraction": f, "edge": hexf(edge)}, max_per_key=1)
+    ctx.note("narrow_windows_probed", len(windows))
     ctx.evals(ncases)
     for s in sorted(sigs):
         ctx.nontrivial(("sig",) + s)
